@@ -455,8 +455,9 @@ func (s *Store[H]) setHead(ctx context.Context, write datastore.Write, to uint64
 		return fmt.Errorf("getting head: %w", err)
 	}
 
-	// update the contiguous head
+	// update the contiguous head and let the published height follow it backward
 	s.contiguousHead.Store(&newHead)
+	s.heightSub.Init(newHead.Height())
 	if err := writeHeaderHashTo(ctx, write, newHead, headKey); err != nil {
 		return fmt.Errorf("writing headKey in batch: %w", err)
 	}
